@@ -73,10 +73,13 @@ def h_step(cx, kind, noise):
     cx.check("power=rate*V/1000", eq(power * 1000, rate * V))
 
 
-def h_ev_evse(cx, kind):
-    """through EVSE.set_pilot -> EV.charge: the EV reports the battery's rate; bounds carry over"""
+def h_ev_evse(cx, kind, evse_kind="inf"):
+    """through EVSE.set_pilot -> EV.charge: the EV reports the battery's rate; bounds carry over.  evse_kind != "inf": a bounded /
+    deadband / finite-rate EVSE and ANY non-negative pilot it accepts (in particular pilots inside the 1e-3 A acceptance band
+    around a level or a range end, which are applied as given)"""
     env.install(cx)
     from acnportal.acnsim.models import EV, EVSE
+    from acnportal.acnsim.models.evse import InvalidRateError
 
     b, cap, charge, maxp = make_battery(cx, kind, False)
     pilot = cx.real("pilot", lo=0)
@@ -84,9 +87,18 @@ def h_ev_evse(cx, kind):
     T = cx.real("period", lo=0, lo_open=True)
     req = cx.real("requested", lo=0)
     ev = EV(0, 5, req, "S", "sess", b)
-    evse = EVSE("S", max_rate=float("inf"))
+    if evse_kind == "inf":
+        evse = EVSE("S", max_rate=float("inf"))
+    else:
+        evse = simlib.make_evse("S", evse_kind)
+        cx.assume(le(pilot, 33))
     evse.plugin(ev)
-    evse.set_pilot(pilot, V, T)
+    try:
+        evse.set_pilot(pilot, V, T)
+    except InvalidRateError:
+        cx.tag("rejected")
+        cx.check("rejected_pilot_leaves_rate", eq(ev.current_charging_rate, 0))
+        return
     cx.tag("charged")
     cx.observe("rate", ev.current_charging_rate)
     cx.check("ev_rate>=0", ge(ev.current_charging_rate, 0))
@@ -133,6 +145,10 @@ def jobs(tier):
                           bounds=dict(step="one charge() from an arbitrary valid state; all 6-8 parameters symbolic reals", unbounded_history="by induction on the state invariant 0<=charge<=capacity"),
                           approx=(kind == "continuous"), cost=3 if kind == "continuous" else 1))
         js.append(Job("ev_evse[%s]" % kind, h_ev_evse, dict(kind=kind), functions=FUNCS, expect_tags=("charged",), approx=(kind == "continuous")))
+        for ek in (("EVSE", "DEADBAND", "CC", "AV5") if kind == "ideal" else ("CC",)):
+            js.append(Job("ev_evse[%s,%s]" % (kind, ek), h_ev_evse, dict(kind=kind, evse_kind=ek), functions=FUNCS + ["acnportal.acnsim.models.evse.DeadbandEVSE/FiniteRatesEVSE.set_pilot/_valid_rate"],
+                          expect_tags=("charged", "rejected"), approx=(kind == "continuous"),
+                          bounds=dict(evse=ek, pilot="[0,33] A symbolic, accepted or rejected by the real EVSE")))
         js.append(Job("ctor[%s]" % kind, h_ctor, dict(kind=kind), functions=FUNCS, expect_tags=("ctor_raised", "ctor_ok", "reset_raised", "reset_ok")))
     js.extend(simlib.jobs_rates_le_pilots(tier))
     return js
